@@ -123,7 +123,17 @@ fn faulted_request(w: &mut World, op: &Op, inj: &Inj, out: &mut RunOut) -> bool 
             let fired = !w.inst.ctl.fired().is_empty();
             let _ = w.inst.ctl.take_log();
             if !fired {
-                return false;
+                if k == 0 {
+                    return false;
+                }
+                // the same request on the same state reached the storage call in every earlier attempt
+                // and now fails (or is answered) without reaching it: the failures left something behind
+                out.violations.push(viol(
+                    &["C05"],
+                    "fault.later_request_not_served",
+                    format!("after {k} consecutive failures of storage call {:?}, the same request no longer reaches the storage: {} answered {}", f, req.short(), r.short()),
+                ));
+                return true;
             }
             if !matches!(r, Resp::Error(_)) {
                 out.violations.push(viol(&["C05"], "fault.success_despite_failure", format!("{} answered {} although storage call {:?} failed (attempt {} of a series)", req.short(), r.short(), f, k + 1)));
@@ -398,7 +408,7 @@ fn exec_wrapped(plan: &FaultPlan) -> RunOut {
                             }
                             if ncalls >= 1 {
                                 // the first storage call of the request (the transaction begin) fails many times in a row
-                                let n = *sel.pick(&[3u32, 70, 140]);
+                                let n = [3u32, 70, 140][(crate::rng::mix(&[plan.seed, req_index as u64, 0x5702]) % 3) as usize];
                                 injections.push(Inj::Storm(StorageFault { index: 0, after: false }, n));
                             }
                             for _ in 0..plan.doubles {
